@@ -58,6 +58,7 @@ var (
 	nomodel  = flag.Bool("nomodel", false, "property oracles on the implementation only")
 	hints    = flag.String("hints", "", "unused (accepted for ./check)")
 	only     = flag.String("only", "", "comma-separated families (development aid)")
+	propName = flag.String("prop", "C11MD", "property id written to the report (C11MD stand-alone; C11 / C05 / C06 when assembled)")
 	repoDir  = flag.String("repo", "", "repository checkout holding decoder_test.go (default: $VERIF_REPO or /repo)")
 )
 
@@ -973,7 +974,7 @@ func (h *harness) replayFile(path string) {
 func main() {
 	flag.Parse()
 	seed := vh.SeedFromEnv()
-	rep := vh.NewReport("C11MD", *tier, seed, "HTML documents (decoder_test.go snippets; c11's valid Microdata soup; unconstrained attribute soup with itemref cycles, duplicate/missing ids, Unicode/VT whitespace, foreign elements; itemref cliques; byte-mutated renderings) x parse path (ParseDocument, +text offsets, x/net/html+NewDocument) x vocabulary resolver (literal, itemtype, failing) x lax-content setting x document location; each parsed DOM is run through the real decoder and through the Lean model (ordered statements, hook calls, outcome); non-trivial = the real decoder yields at least one statement (documents), non-empty input (string functions); distinct = by (configuration, location, document bytes)")
+	rep := vh.NewReport(*propName, *tier, seed, "HTML documents (decoder_test.go snippets; c11's valid Microdata soup; unconstrained attribute soup with itemref cycles, duplicate/missing ids, Unicode/VT whitespace, foreign elements; itemref cliques; byte-mutated renderings) x parse path (ParseDocument, +text offsets, x/net/html+NewDocument) x vocabulary resolver (literal, itemtype, failing) x lax-content setting x document location; each parsed DOM is run through the real decoder and through the Lean model (ordered statements, hook calls, outcome); non-trivial = the real decoder yields at least one statement (documents), non-empty input (string functions); distinct = by (configuration, location, document bytes)")
 	if _, err := vh.LoadFindings(*findings); err != nil {
 		fmt.Fprintln(os.Stderr, "findings:", err)
 		os.Exit(2)
